@@ -122,6 +122,11 @@ def handleC05 : List String → Option String
       | some (.known vals tail) => "ok k " ++ showDump vals tail
       | some (.generic d) => "ok g " ++ toHexP d
       | none => "err")
+  | "c05.wire.enc" :: tn :: o :: dump => do
+    let o ← kv "o" o >>= parseOptName
+    let sch ← schemaOf tn
+    let (vals, tail) ← splitDump dump
+    some (okHex (encRec tn sch o vals tail))
   | ["c05.wire.dec", tn, o, w] => do
     let o ← kv "o" o >>= parseOptName
     let w ← ofHex w
